@@ -56,7 +56,7 @@ func genC17(r *rt.Rand, tier string, idx int) *world.Scenario {
 		sc.Class += "+delete-errors"
 		sc.Rates.DelErr = 0.1 + 0.4*r.Float64()
 	}
-	pauses := []int64{10_000, 600_000, 1_790_000, 1_810_000, 3_590_000, 3_610_000, 4_000_000, 100_000}
+	pauses := []int64{10_000, 600_000, 1_790_000, 1_810_000, 3_590_000, 3_610_000, 4_000_000, 100_000, 3_599_450, 3_600_350, 600, 1_450}
 	// requests may carry a lease (Kubernetes sends one with Events and with master leases): expiry is decided
 	// by the key, never by the request's lease
 	lease := func() int64 {
@@ -97,6 +97,13 @@ func genC17(r *rt.Rand, tier string, idx int) *world.Scenario {
 				cl.Ops = append(cl.Ops, world.Op{K: "list", Key: prefix + "/", End: prefix + "0"})
 			}
 		}
+	}
+	if (idx%5 == 3 || idx%5 == 4) && r.Chance(0.25) {
+		// a mark taken late in a second, and a compaction a hair less than one TTL after it
+		e := c17Keys[r.Intn(2)]
+		cl.Ops = append(cl.Ops, world.Op{K: "get", Key: e}, world.Op{K: "update", Key: e, Val: "late", Rev: world.Rev{M: "known"}}, world.Op{K: "create", Key: e, Val: "late"},
+			world.Op{K: "sleep", Ms: int64(50 + r.Intn(900))}, world.Op{K: "compact", Rev: world.Rev{M: "zero"}},
+			world.Op{K: "sleep", Ms: int64(3_599_000 + r.Intn(990))}, world.Op{K: "compact", Rev: world.Rev{M: "zero"}}, world.Op{K: "sleep", Ms: 5}, world.Op{K: "get", Key: e})
 	}
 	// final observation of everything, after a last compaction mark sequence on TTL-less engines
 	cl.Ops = append(cl.Ops, world.Op{K: "compact", Rev: world.Rev{M: "zero"}}, world.Op{K: "sleep", Ms: 1000})
@@ -158,6 +165,12 @@ func checkC17(c *Ctx) {
 		return best, ok
 	}
 	engineClass := " class=" + c.Sc.Class
+	// native TTLs count in whole seconds. Engines without one expire by compaction marks: a mark is taken after
+	// the writes it covers and acts a full TTL later, so (single sequential client) nothing goes early at all
+	tolerance := int64(1000)
+	if strings.HasPrefix(c.Sc.Class, "ttl-less") && !strings.Contains(c.Sc.Class, "racing") {
+		tolerance = 20
+	}
 	observe := func(r *world.Rec, key string, got *world.KV) {
 		nw, ok := newestBefore(key, r.Inv)
 		if !ok || nw.del {
@@ -183,7 +196,7 @@ func checkC17(c *Ctx) {
 				look = " key-contains-/events/"
 			}
 			out.violate(P, "non-event-key-expired", "non-event-key-expired"+look, "%s is not an Event record (not under %s/events/) but was removed by expiry %d s after its newest change", key, prefix, age/1000)
-		case age < c17TTLms-1000:
+		case age < c17TTLms-tolerance:
 			upd := ""
 			if len(writes[key]) > 1 {
 				upd = " after-update"
